@@ -139,6 +139,18 @@ func runC03(res *hx.Result, rng *hx.Rng, tier string, outdir string) {
 				res.Fail("reader-unchanged", detail)
 			}
 		}
+		// "accepts exactly those bytes": one strict prefix per case must be refused (every prefix is C08's subject)
+		if len(doc) > 0 && !t.HasScalar("X") {
+			k := rng.Intn(len(doc))
+			if p := sigRead(sig, doc[:k]); p.class == ocOK {
+				detail := fmt.Sprintf("signature %q: the reader accepts the first %d of the %d bytes %x and returns %x", sig, k, len(doc), doc, p.data)
+				if sw["string_reader_drops_err"] {
+					res.FailKnown("reader-accepts-prefix", detail, "string_reader_drops_err")
+				} else {
+					res.Fail("reader-accepts-prefix", detail)
+				}
+			}
+		}
 		var de decOut
 		if inRefl {
 			de = reflDec(rt, t, input)
